@@ -1,11 +1,19 @@
 (* Proofs/SrvFlowDefs.v - how a run of the server model is read as a history of the ghost ledgers of
-   Spec/FlowLedger.v (properties C06 and C14), and the peer hypothesis `no_reopen`. Definitions and their
-   list algebra only. *)
+   Spec/FlowLedger.v (properties C06 and C14). Definitions and their list algebra only. *)
 From H2V Require Import Base.Bytes Base.MachineInt Base.Result Gen.GenConsts Impl.ServerConn Proofs.SrvBase
   Spec.FlowLedger Proofs.SrvFlowLedger.
 From Coq Require Import ZArith Lia ZifyN ZifyNat ZifyBool List.
 Import ListNotations.
 Local Open Scope N_scope.
+Set Default Proof Using "Type".
+
+(* lia, without letting it capture the HPACK coder (section variables whose types mention N or bool) *)
+Ltac flia :=
+  repeat match goal with
+         | H : ?h -> N -> bytes -> dec_res ?h |- _ => clear H
+         | H : ?h -> bytes -> bytes -> bool -> bytes * ?h |- _ => clear H
+         | H : ?h -> N -> ?h |- _ => clear H
+         end; lia.
 
 (* ---------- outputs as ledger events ---------- *)
 
@@ -76,7 +84,7 @@ Definition new_out (c c' : sconn) : list outev :=
 Lemma new_out_ext (c c' : sconn) new : sc_out c' = new ++ sc_out c -> new_out c c' = rev new.
 Proof.
   intro H. unfold new_out. rewrite H, app_length.
-  replace (length new + length (sc_out c) - length (sc_out c))%nat with (length new + 0)%nat by lia.
+  replace (length new + length (sc_out c) - length (sc_out c))%nat with (length new + 0)%nat by flia.
   rewrite firstn_app_2. cbn [firstn]. rewrite app_nil_r. reflexivity.
 Qed.
 
@@ -142,34 +150,6 @@ Lemma rtimeline_from_app c a b : rtimeline_from c (a ++ b) = rtimeline_from c a 
 Proof.
   revert c. induction a as [|e a IH]; intro c; [reflexivity|].
   cbn [app rtimeline_from]. rewrite IH, <- app_assoc. reflexivity.
-Qed.
-
-(* ---------- the peer hypothesis: no stream id is used again ----------
-   serverConn.go refuses a new stream whose id is BELOW the newest one (`fr.Stream() < sc.lastID`), and relies on
-   the stream table and the closed ring for the newest id itself. Once 256 later closures have pushed the newest
-   id out of the ring, a HEADERS frame on that id opens it a second time (a defect: RFC 7540 5.1.1 makes this a
-   connection error). `reopen_atb c e` says that step e from state c is such a re-opening. *)
-Definition reopen_atb (c : sconn) (e : event) : bool :=
-  match sl_takes c e with
-  | Some fr =>
-    negb (sf_sid fr =? 0) && fkind_eqb (sf_kind fr) KHeaders && (sf_sid fr =? sc_lastID c)
-    && match strms_search (sc_strms c) (sf_sid fr) with Some _ => false | None => true end
-    && negb (in_ring c (sf_sid fr))
-  | None => false
-  end.
-
-Fixpoint no_reopen_from (c : sconn) (evs : list event) : bool :=
-  match evs with
-  | [] => true
-  | e :: t => negb (reopen_atb c e) && no_reopen_from (step c e) t
-  end.
-Definition no_reopen (evs : list event) : bool := no_reopen_from (init_conn cfg h0) evs.
-
-Lemma no_reopen_from_app c a b :
-  no_reopen_from c (a ++ b) = no_reopen_from c a && no_reopen_from (run_from c a) b.
-Proof.
-  revert c. induction a as [|e a IH]; intro c; [reflexivity|].
-  cbn [app no_reopen_from]. rewrite IH, Bool.andb_assoc. reflexivity.
 Qed.
 
 End Defs.
